@@ -1,11 +1,11 @@
 import json, os, shutil, subprocess, re
-src='/var/tmp/seed7/out'
-asbuilt=set('C03-1 C03-2 C06-1 C11-1 C11-2 C13-1 C14-1 C14-2 C15-2 C16-2 C17-2 C19-2'.split())
+src='/var/tmp/seed8/out'
+asbuilt=set('C05-1 C05-2 C07-1 C07-2 C09-1 C10-2 C11-1 C13-2 C14-1 C16-2 C17-1 C17-2 C19-2 C20-1'.split())
 head=subprocess.check_output(['git','-C','/repo','rev-parse','--short','HEAD']).decode().strip()
 for d in sorted(os.listdir(src)):
     if not re.match(r'C\d\d-[12]$', d): continue
     prop, n = d.split('-')
-    new = f"{prop}-{int(n)+12}"
+    new = f"{prop}-{int(n)+14}"
     dst=f'/verif/seeded/{new}'
     os.makedirs(dst, exist_ok=True)
     patch = os.path.join(src,d,'patch.rebased.diff')
@@ -13,12 +13,12 @@ for d in sorted(os.listdir(src)):
     shutil.copy(patch, dst+'/patch.diff')
     shutil.copy(os.path.join(src,d,'demo_test.go'), dst+'/demo_test.go')
     m=json.load(open(os.path.join(src,d,'meta.json')))
-    out=subprocess.run(['/verif/tools/try.sh', dst+'/patch.diff', prop], capture_output=True, text=True, env=dict(os.environ, TAIL='400')).stdout
+    out=subprocess.run(['/verif/tools/try_copy.sh', dst+'/patch.diff', prop], capture_output=True, text=True, env=dict(os.environ, TAIL='400')).stdout
     rules=sorted(set(re.findall(r'\[(C\d\d\.[^\]]+)\] violated', out)))
     first=next((l.strip() for l in out.splitlines() if '] violated' in l), '')
     meta={'property':prop,'summary':m.get('summary',''),'needs_to_manifest':m.get('needs',m.get('needs_to_manifest','')),
           'files':m.get('files',[]),'functions':m.get('functions',[]),
-          'origin':'independent sub-agent (round 7) given only the property text and a scratch worktree',
+          'origin':'independent sub-agent (round 8) given only the property text and a scratch worktree',
           'confirmed':{'repo_head':head,'ran':'tools/confirm_seed.sh: scratch worktree of /repo HEAD; git apply; go build ./...; go test -count=1 ./... (passes); go test -run TestSeedDemo (fails with the change, passes without)'},
           'detected_by_quick_check': 'exit=1' in out, 'reporting_rules':rules,'first_report':first,
           'detected_before_strengthening': d in asbuilt}
